@@ -412,10 +412,11 @@ def grid_weights_only(case):
     return [float(x) for x in est._assign_descriptors_to_grids(G)[3]]
 
 
-def oracle_invariance(case, rec, rng, what, rtol=1e-6, atol=1e-6):
+def oracle_invariance(case, rec, rng, what, rtol=1e-6, atol=1e-6, c2=None):
     """metamorphic statement of C17: log-densities at non-descriptor queries are unchanged by the
     transformation.  Returns (message or None, status, transformed case)."""
-    c2 = transformed(case, rng, what)
+    if c2 is None:
+        c2 = transformed(case, rng, what)
     if what == "permute" and assignment_ties(case):
         return None, "skipped_ties", c2
     try:
